@@ -62,7 +62,7 @@ def required_cells(tier):
 
 def cases(tier, seed):
     out = []
-    reps = 1 if tier == "quick" else 6
+    reps = 2 if tier == "quick" else 8
     for rep in range(reps):
         for g in GROUPS:
             for lay in LAYOUTS:
